@@ -388,7 +388,9 @@ class InterpError(Exception):
 # ----------------------------------------------------------------------------- generator
 UNARY_F = ["Abs", "Relu", "Sigmoid", "Tanh", "Floor", "Ceil", "Identity", "Neg", "Softplus", "Erf", "Sign"]
 UNARY_I = ["Abs", "Identity", "Neg", "Sign"]
-VARS = ["a", "b", "c", "t", "u", "v", "w", "y", "z", "acc", "tmp", "r"]
+VARS = ["a", "b", "c", "t", "u", "v", "w", "y", "z", "acc", "tmp", "r",
+        # names of the form <base>_<k>: the converter renames re-assigned variables to exactly such names
+        "a_1", "b_1", "x_1", "x_2", "y_1", "acc_1", "r_2", "z_0", "w_1", "k_1", "t_3", "c_2"]
 
 
 class SGen:
@@ -593,7 +595,7 @@ class SGen:
         v = env[n]
         x = Var(n)
         kind = self.pick(["like", "like", "reduce", "transpose", "concat", "cast", "shape", "matmul", "split", "topk", "unsq", "reshape", "gather", "cmp", "cumsum", "softmax", "minmax", "castlike",
-                          "where_lits", "pow_lit"])
+                          "where_lits", "pow_lit", "subscript", "subscript"])
         self.uses_op = True
         if kind == "like" or v.dtype == np.bool_:
             e = self.gen_like(v, env)
@@ -645,12 +647,17 @@ class SGen:
         if kind == "cmp":
             self.feats.add("literal:promoted")
             return Bin(self.pick(list(CMPOPS)), x, Lit(self.literal_for(v.dtype))), 1
+        if kind == "subscript":
+            idx = self.subscript_for(v)
+            if idx is not None:
+                self.feats.add("subscript")
+                return Index(x, idx), 1
         if kind == "where_lits" and v.dtype != np.int32:
             # literals in positions WITHOUT a typed sibling (both branches of Where): typed by their Python type alone, no CastLike
             self.feats.add("literal:promoted")
             self.feats.add("literal:untyped_position")
             cond = Bin(self.pick(list(CMPOPS)), x, Lit(self.literal_for(v.dtype)))
-            a, b = self.pick([(1.0, 0.0), (0.0, 1.0), (1, 0), (2.0, -1.0), (0.5, 0.0), (3, -1), (True, False), (1.0, 2.0)])
+            a, b = self.pick([(1.0, 0.0), (0.0, 1.0), (1, 0), (2.0, -1.0), (0.5, 0.0), (3, -1), (1.0, 2.0)])  # (no bool pair: onnxruntime has no Where kernel for bool)
             return Call("Where", [cond, Lit(a), Lit(b)], {}), 1
         if kind == "pow_lit" and v.dtype == np.float32 and v.size and np.abs(v).max() < 8:
             self.feats.add("literal:promoted")
@@ -665,6 +672,19 @@ class SGen:
             self.feats.add("literal:promoted")
             return Call(self.pick(["Min", "Max"]), [x, Lit(self.literal_for(v.dtype))], {}), 1
         return self.gen_like(v, env), 1
+
+    @staticmethod
+    def subscript_ok(v):
+        return v.ndim >= 1 and v.shape[0] >= 2
+
+    def subscript_for(self, v):
+        """Source text of a subscript of the documented forms that is in range for v (and leaves >= 1 element)."""
+        if v.ndim == 0 or v.shape[0] < 2:
+            return None
+        forms = ["1:", ":1", "0", "-1", "1:2", ":-1"]
+        if v.ndim >= 2 and v.shape[1] >= 2:
+            forms += [":, 0", ":1, 0", ":1, :1", "0, 1:", "1:, -1"]
+        return self.pick(forms)
 
     def scalar_cond(self, env):
         """A rank-0 BOOL expression."""
@@ -810,8 +830,25 @@ class SGen:
         if loop_var:
             self.frozen.add(loop_var)
         try:
+            sliced = None
+            if self.chance(4):
+                arrs = [n for n, v in benv.items() if isinstance(v, np.ndarray) and v.dtype in (np.float32, np.int64) and n != loop_var and self.subscript_ok(v)]
+                if arrs:
+                    src = self.pick(arrs)
+                    tmp = "tmp" + str(len(body)) + "s"
+                    ie = Index(Var(src), self.subscript_for(benv[src]))
+                    v0 = self.try_eval(ie, benv)
+                    if v0 is not None and v0.size:
+                        benv[tmp] = v0
+                        body.append(Assign([tmp], ie))
+                        sliced = tmp
+                        self.feats.add("subscript:in_loop")
+                        self.uses_op = True
             for s in state:
                 e = self.gen_like(env[s], benv)
+                if sliced and e is not None and benv[sliced].dtype == env[s].dtype:
+                    e = Bin("+", e, Call("ReduceSum", [Var(sliced)], {"keepdims": 0}))
+                    sliced = None
                 if loop_var and env[s].dtype.kind in "fi" and env[s].dtype != np.int32 and self.chance(4):
                     self.uses_op = True
                     e = Bin("+", e or Var(s), Call("Cast", [Var(loop_var)], {"to": ONNX_ENUM[NAME_OF[env[s].dtype]]}))
@@ -902,7 +939,38 @@ class SGen:
                 it.stmt(s, env)
         except (InterpError, KeyError, ValueError, TypeError):
             return None
-        r = self.gen_loop_body(env, state, None)
+        r = None
+        s0 = state[0]
+        partners = [n for n, v in env.items() if isinstance(v, np.ndarray) and n not in self.frozen and n not in (s0, "cnt", "go") and v.dtype == env[s0].dtype
+                    and v.shape == env[s0].shape and v.dtype.kind == "f"]
+        extra_pre = []
+        if not partners and env[s0].dtype.kind == "f" and self.chance(5):
+            nm = next((v for v in VARS if v not in env and v not in self.frozen), None)
+            if nm is not None:
+                st0 = Assign([nm], Bin("*", Var(s0), Lit(0.5)))
+                try:
+                    it.stmt(st0, env)
+                    extra_pre, partners = [st0], [nm]
+                except (InterpError, KeyError, ValueError, TypeError):
+                    pass
+        if partners and self.chance(6):
+            # acc = acc + v at the top; inside an `if`, v is re-assigned (read again only by the NEXT iteration) together with acc
+            pv = self.pick(partners)
+            benv = dict(env)
+            top = Assign([s0], Bin("+", Var(s0), Var(pv)))
+            cond = Bin(self.pick(["<", ">"]), Call("ReduceSum", [Var(s0)], {"keepdims": 0}), Lit(self.pick([0.0, 1.0, -1.0, 2.0])))
+            inner = If(cond, [Assign([pv], Bin("*", Var(pv), Lit(self.pick([0.5, 2.0, -1.0])))), Assign([s0], Bin("-", Var(s0), Lit(1.0)))], [])
+            try:
+                it.stmt(top, benv)
+                it.stmt(inner, benv)
+                r = ([top, inner], benv)
+                self.feats.add("while:backedge_only_variable")
+                self.feats.add("literal:promoted")
+                self.uses_op = True
+            except (InterpError, KeyError, ValueError, TypeError):
+                r = None
+        if r is None:
+            r = self.gen_loop_body(env, state, None)
         if r is None:
             env.pop("cnt", None)
             env.pop("go", None)
@@ -926,7 +994,7 @@ class SGen:
                 env.pop(n, None)
         self.feats.add("while")
         self.feats.add("literal:promoted")
-        return [pre[0], pre[1], stmt]
+        return extra_pre + [pre[0], pre[1], stmt]
 
     def gen_compound(self, env, must_preserve=(), only_existing=False):
         """Generate a compound statement on a copy of env; commit only on success, and only names that Python AND the
@@ -949,7 +1017,7 @@ class SGen:
         if r is None:
             self.feats = feats_before
             return None
-        keep_new = {"cnt", "go"} if isinstance(r, list) else set()
+        keep_new = ({"cnt", "go"} | {t for st_ in r if isinstance(st_, Assign) for t in st_.targets}) if isinstance(r, list) else set()
         if isinstance(r, If):
             keep_new = _assigned_on_all_paths(r)
         for n in list(work):
